@@ -24,6 +24,7 @@ from .shrink import Shrinker
 
 VERIF = os.path.dirname(os.path.dirname(os.path.abspath(__file__)))
 DIGEST_CAP = 3000000
+N_CANDS = 6  # candidate runs kept per violation signature (lowest run indexes)
 OUT = os.environ.get("DSIM_OUT") or VERIF  # evidence/ and replays/ go here (self-tests redirect it)
 PROPS = {
     "C04": "c04_run_containment", "C05": "c05_parser_reuse", "C06": "c06_format_builder",
@@ -115,9 +116,11 @@ def _work(args):
                     sig = signature(v)
                     cur = agg["violations"].get(sig)
                     if cur is None:
-                        agg["violations"][sig] = {"first": (i, sc, v), "count": 1}
+                        agg["violations"][sig] = {"cands": [(i, sc, v)], "count": 1}
                     else:
                         cur["count"] += 1
+                        if len(cur["cands"]) < N_CANDS and cur["cands"][-1][0] != i:
+                            cur["cands"].append((i, sc, v))
         return agg
     finally:
         faulthandler.cancel_dump_traceback_later()
@@ -143,11 +146,10 @@ def _merge(total, part):
     for sig, rec in part["violations"].items():
         cur = vs.get(sig)
         if cur is None:
-            vs[sig] = {"first": rec["first"], "count": rec["count"]}
+            vs[sig] = {"cands": list(rec["cands"]), "count": rec["count"]}
         else:
             cur["count"] += rec["count"]
-            if rec["first"][0] < cur["first"][0]:
-                cur["first"] = rec["first"]
+            cur["cands"] = sorted(cur["cands"] + rec["cands"], key=lambda c: c[0])[:N_CANDS]
 
 
 # --------------------------------------------------------------------------------------------
@@ -321,35 +323,44 @@ def run_check(prop, tier, verif_seed, runs=None, workers=None):
     except HarnessError as e:
         print("HARNESS-ERROR property=%s %s" % (prop, e))
         return 2
-    if audit["mismatches"]:
-        print("HARNESS-ERROR property=%s determinism audit: %d mismatching digests %s"
-              % (prop, audit["mismatches"], audit["mismatch_keys"]))
-        return 2
+    # An audit mismatch on a tree that also shows verified violations is reported after them: code
+    # under test that keeps process-global state (a cache keyed too coarsely, a shared singleton)
+    # makes scenarios depend on their predecessors, and the violation - whose replay file must
+    # still reproduce in a fresh interpreter - is the more useful verdict.
+    audit_failed = bool(audit["mismatches"])
 
     # ---- violations: minimise the first of each signature, replay in a fresh interpreter ----
     entries = findings.load()
-    known_hit, unlisted = [], []
+    known_hit, unlisted, unreproducible = [], [], []
     budget = {"quick": 500, "thorough": 1500}[tier]
     for sig in sorted(total.get("violations", {})):
         rec = total["violations"][sig]
-        i, sc, v = rec["first"]
-        sh = Shrinker(h, sig, budget=budget)
-        small = sh.run(sc)
-        res = execute(h, small)
-        vv = [x for x in res.violations if signature(x) == sig]
-        if not vv:  # shrinking must preserve the signature; fall back to the original
-            small, res = sc, execute(h, sc)
-            vv = [x for x in res.violations if signature(x) == sig]
-            if not vv:
-                print("HARNESS-ERROR property=%s violation %s of run %d does not reproduce in the "
-                      "parent process" % (prop, sig, i))
-                return 2
-        path = write_replay(prop, tier, verif_seed, small, vv[0], res.digest, sh.steps, True)
-        p = _fresh([prop, "--replay", path, "--expect"], hashseed=777, timeout=600)
-        if p.returncode != 1 or "REPRODUCED" not in p.stdout:
-            print("HARNESS-ERROR property=%s replay of %s in a fresh interpreter did not reproduce "
-                  "(rc=%s): %s %s" % (prop, path, p.returncode, p.stdout[-500:], p.stderr[-1500:]))
-            return 2
+        path = small = vv = None
+        for i, sc, v in rec["cands"]:
+            # the violation must reproduce here (another process than the worker that saw it) ...
+            res0 = execute(h, sc)
+            if not any(signature(x) == sig for x in res0.violations):
+                continue
+            sh = Shrinker(h, sig, budget=budget)
+            cand = sh.run(sc)
+            res = execute(h, cand)
+            cv = [x for x in res.violations if signature(x) == sig]
+            # ... and its replay file must reproduce in a fresh interpreter; the minimised scenario
+            # first, the scenario as generated as a fall-back (shrinking may lean on state that this
+            # process accumulated if the code under test keeps state between operations)
+            attempts = [(cand, cv, res.digest, sh.steps, True)] if cv else []
+            attempts.append((sc, [x for x in res0.violations if signature(x) == sig], res0.digest, 0, False))
+            for scn, vs_, dg, steps, minimised in attempts:
+                pth = write_replay(prop, tier, verif_seed, scn, vs_[0], dg, steps, minimised)
+                p = _fresh([prop, "--replay", pth], hashseed=777, timeout=600)
+                if p.returncode == 1 and "REPRODUCED" in p.stdout:
+                    path, small, vv = pth, scn, vs_
+                    break
+            if path is not None:
+                break
+        if path is None:
+            unreproducible.append((sig, rec["cands"][0][0]))
+            continue
         facts = h.condition(small, vv[0]) if hasattr(h, "condition") else {}
         e = findings.match(prop, vv[0], facts, entries)
         if e is not None:
@@ -366,16 +377,27 @@ def run_check(prop, tier, verif_seed, runs=None, workers=None):
     if zero and tier == "thorough":
         print("WARNING property=%s probes never hit: %s" % (prop, ", ".join(zero)))
     print("property=%s tier=%s seed=%d runs=%d executions=%d distinct_nontrivial=%d sim_time=%.1fs "
-          "faults=%d wall=%.1fs audit=%d/%d ok" % (
+          "faults=%d wall=%.1fs audit=%d/%d" % (
               prop, tier, verif_seed, runs, total.get("evaluations", 0),
               len(total.get("digests", ())), total.get("sim_us", 0) / 1e6,
               sum(total.get("faults", {}).values()), wall_s,
-              audit["executions_compared"], audit["executions_compared"]))
+              audit["executions_compared"] - audit["mismatches"], audit["executions_compared"]))
     if unlisted:
         for sig, path, v, count in unlisted:
             print("VIOLATION property=%s replay=%s" % (prop, path))
             print("  oracle=%s where=%s runs=%d detail=%s" % (sig[0], sig[1], count, v["detail"]))
+        if audit_failed:
+            print("NOTE property=%s determinism audit: %d executions differ between processes - the code under "
+                  "test carries state from one scenario to the next" % (prop, audit["mismatches"]))
         return 1
+    if unreproducible:
+        print("HARNESS-ERROR property=%s %d violation signature(s) did not reproduce in a fresh interpreter: %s"
+              % (prop, len(unreproducible), [u[0] for u in unreproducible][:5]))
+        return 2
+    if audit_failed:
+        print("HARNESS-ERROR property=%s determinism audit: %d mismatching digests %s"
+              % (prop, audit["mismatches"], audit["mismatch_keys"]))
+        return 2
     return 0
 
 
